@@ -24,7 +24,7 @@ import (
 // tcp-conn histories: the same idea on a real tcp/client.Conn (block-wise enabled by the peer's CSM).
 
 var tcpKinds = []string{"do-ok", "do-silent-cancel", "upload3", "upload-abort-cancel", "download3", "download-abort-cancel", "dup-token",
-	"observe-cancel", "observe-live", "observe-silent-cancel", "observe-404", "ping-ok", "ping-silent-cancel", "oneway", "incoming", "incoming-blockwise-abort"}
+	"observe-cancel", "observe-live", "observe-silent-cancel", "observe-404", "ping-ok", "ping-silent-cancel", "oneway", "incoming", "incoming-blockwise-abort", "do-write-error", "observe-write-error"}
 
 func tcpScenario(depth int, kinds []string) *mcx.Scenario {
 	name := fmt.Sprintf("tcp-conn exchange histories depth=%d over %d exchange kinds", depth, len(kinds))
@@ -69,6 +69,19 @@ func tcpScenario(depth int, kinds []string) *mcx.Scenario {
 					}
 					var obsCancel func() error
 					switch kind {
+					case "do-write-error":
+						// the socket refuses this one write (transient error); the connection stays open
+						w.St.WriteErr = fmt.Errorf("write: no buffer space available")
+						start("do", func() error { _, err := cc.Do(mk(codes.GET, "/r", nil)); w.St.WriteErr = nil; return err })
+					case "observe-write-error":
+						w.St.WriteErr = fmt.Errorf("write: no buffer space available")
+						start("observe", func() error {
+							req := mk(codes.GET, "/obs", nil)
+							req.SetObserve(0)
+							_, err := cc.DoObserve(req, func(*pool.Message) {})
+							w.St.WriteErr = nil
+							return err
+						})
 					case "do-ok", "do-silent-cancel", "download3", "download-abort-cancel":
 						start("do", func() error { _, err := cc.Do(mk(codes.GET, "/r", nil)); return err })
 					case "upload3", "upload-abort-cancel":
